@@ -579,5 +579,24 @@ func (s *Sim) finish() {
 	}
 }
 
+// FaultCount returns how often the cooperative fault site has fired so far.
+//
+//go:norace
+func (s *Sim) FaultCount(site string) int {
+	s.lock()
+	defer s.unlock()
+	return s.stats["fault:"+site]
+}
+
+// SetTimeWeight changes how often the controller lets time pass although
+// something is runnable (0 = never).
+//
+//go:norace
+func (s *Sim) SetTimeWeight(n int) {
+	s.lock()
+	s.TimeWeight = n
+	s.unlock()
+}
+
 // Goid returns the current goroutine id.
 func Goid() int64 { return goid() }
